@@ -30,7 +30,7 @@ fn opt(b: &[u8]) -> Option<&[u8]> {
     if b.first() == Some(&b'1') { Some(&b[1..]) } else { None }
 }
 
-/// fields 0.. : R V P bits em O U OE? UE? StmF? ncf (name method len?)*  -> (dictionary primitive, next index)
+/// fields 0.. : R V P bits em O U OE? UE? StmF? StrF? ncf (name method len?)*  -> (dictionary primitive, next index)
 fn dict_of(f: &[Vec<u8>]) -> (Primitive, usize) {
     let mut d = Dictionary::new();
     d.insert("Filter", pname(b"Standard"));
@@ -45,20 +45,21 @@ fn dict_of(f: &[Vec<u8>]) -> (Primitive, usize) {
     d.insert("U", pstr(fld(f, 6)));
     if let Some(x) = opt(fld(f, 7)) { d.insert("OE", pstr(x)); }
     if let Some(x) = opt(fld(f, 8)) { d.insert("UE", pstr(x)); }
-    if let Some(x) = opt(fld(f, 9)) { d.insert("StmF", pname(x)); d.insert("StrF", pname(x)); }
-    let ncf = dec(fld(f, 10)) as usize;
+    if let Some(x) = opt(fld(f, 9)) { d.insert("StmF", pname(x)); }
+    if let Some(x) = opt(fld(f, 10)) { d.insert("StrF", pname(x)); }
+    let ncf = dec(fld(f, 11)) as usize;
     let mut cf = Dictionary::new();
     for k in 0..ncf {
         let mut e = Dictionary::new();
-        let m = dec(fld(f, 11 + 3 * k + 1));
+        let m = dec(fld(f, 12 + 3 * k + 1));
         match m { 0 => { e.insert("CFM", pname(b"None")); } 1 => { e.insert("CFM", pname(b"V2")); }
                   2 => { e.insert("CFM", pname(b"AESV2")); } 3 => { e.insert("CFM", pname(b"AESV3")); } _ => {} }
-        if let Some(x) = opt(fld(f, 11 + 3 * k + 2)) { e.insert("Length", Primitive::Integer(dec(x) as i32)); }
-        let nm: Name = String::from_utf8_lossy(fld(f, 11 + 3 * k)).as_ref().into();
+        if let Some(x) = opt(fld(f, 12 + 3 * k + 2)) { e.insert("Length", Primitive::Integer(dec(x) as i32)); }
+        let nm: Name = String::from_utf8_lossy(fld(f, 12 + 3 * k)).as_ref().into();
         cf.insert(nm, Primitive::Dictionary(e));
     }
     if ncf > 0 { d.insert("CF", Primitive::Dictionary(cf)); }
-    (Primitive::Dictionary(d), 11 + 3 * ncf)
+    (Primitive::Dictionary(d), 12 + 3 * ncf)
 }
 
 fn method_of(n: i128) -> CryptMethod {
@@ -71,21 +72,25 @@ fn item(r: pdf::error::Result<Vec<u8>>) -> Vec<u8> {
               Err(e) => { let mut o = vec![b'!']; o.extend_from_slice(ekind(&e).as_bytes()); o } }
 }
 
+/// items: (kind obj gen data)*; kind "s": a string (Decoder::decrypt_string), anything else: stream data (Decoder::decrypt)
 fn decrypt_items(d: &Decoder, f: &[Vec<u8>], from: usize, n: usize, out: &mut Vec<Vec<u8>>) {
     for k in 0..n {
-        let id = PlainRef { id: dec(fld(f, from + 3 * k)) as u64, gen: dec(fld(f, from + 3 * k + 1)) as u64 };
-        let mut data = fld(f, from + 3 * k + 2).to_vec();
-        out.push(item(d.decrypt(id, &mut data).map(|s| s.to_vec())));
+        let id = PlainRef { id: dec(fld(f, from + 4 * k + 1)) as u64, gen: dec(fld(f, from + 4 * k + 2)) as u64 };
+        let mut data = fld(f, from + 4 * k + 3).to_vec();
+        let r = if fld(f, from + 4 * k) == b"s" { d.decrypt_string(id, &mut data) } else { d.decrypt(id, &mut data) };
+        out.push(item(r.map(|s| s.to_vec())));
     }
 }
 
-/// what Debug shows of a decoder: `Decoder { key: [..], method: M }`  ->  key bytes, method name
-fn observe(d: &Decoder) -> (Vec<u8>, Vec<u8>) {
+/// what Debug shows of a decoder: `Decoder { key: [..], method: M, string_method: S }`  ->  key bytes, the two method names
+fn observe(d: &Decoder) -> (Vec<u8>, Vec<u8>, Vec<u8>) {
     let s = format!("{:?}", d);
     let key = s.split("key: [").nth(1).and_then(|t| t.split(']').next()).unwrap_or("");
     let kb: Vec<u8> = key.split(',').filter_map(|x| x.trim().parse::<u8>().ok()).collect();
-    let m = s.split("method: ").nth(1).map(|t| t.trim_end_matches(|c| c == '}' || c == ' ')).unwrap_or("?");
-    (kb, m.as_bytes().to_vec())
+    let name = |label: &str| -> Vec<u8> {
+        s.split(label).nth(1).map(|t| t.split(|c| c == ',' || c == '}' || c == ' ').next().unwrap_or("?")).unwrap_or("?").as_bytes().to_vec()
+    };
+    (kb, name(" method: "), name(" string_method: "))
 }
 
 fn walk(p: &Primitive, r: &impl Resolve, out: &mut Vec<Vec<u8>>) {
@@ -110,23 +115,24 @@ pub fn dispatch(mode: &str, f: &[Vec<u8>]) -> Option<R> {
     Some(match mode {
         // key data -> Rc4::encrypt
         "rc4" => { let mut d = fld(f, 1).to_vec(); Rc4::encrypt(fld(f, 0), &mut d); Ok(vec![d]) }
-        // dict.. id password fuel nitems (obj gen data)*   [oracle tables: model only]
+        // dict.. id password fuel nitems (kind obj gen data)*   [oracle tables: model only]
         "crypt_open" => {
             let (p, i) = dict_of(f);
             let dict = match CryptDict::from_primitive(p, &NoResolve) { Ok(d) => d, Err(_) => return Some(Err("BadDict".into())) };
             let dcd = match Decoder::from_password(&dict, fld(f, i), fld(f, i + 1)) { Ok(d) => d, Err(e) => return Some(Err(ekind(&e).into())) };
             let n = dec(fld(f, i + 3)) as usize;
-            let (k, m) = observe(&dcd);
-            let mut out = vec![k, m];
+            let (k, m, ms) = observe(&dcd);
+            let mut out = vec![k, m, ms];
             decrypt_items(&dcd, f, i + 4, n, &mut out);
             Ok(out)
         }
-        // key key_size method em nitems (obj gen data)*
+        // key key_size method string_method em nitems (kind obj gen data)*
         "crypt_dec" => {
-            let dcd = Decoder::new(fld(f, 0).to_vec(), dec(fld(f, 1)) as usize, method_of(dec(fld(f, 2))), fld(f, 3) == b"1");
-            let n = dec(fld(f, 4)) as usize;
+            let dcd = Decoder::with_methods(fld(f, 0).to_vec(), dec(fld(f, 1)) as usize, method_of(dec(fld(f, 2))), method_of(dec(fld(f, 3))),
+                                            fld(f, 4) == b"1");
+            let n = dec(fld(f, 5)) as usize;
             let mut out = vec![];
-            decrypt_items(&dcd, f, 5, n, &mut out);
+            decrypt_items(&dcd, f, 6, n, &mut out);
             Ok(out)
         }
         // password ids(comma separated) file nprobes (obj gen start end)*  ->  leaves of the listed objects in order, then the probes
